@@ -30,6 +30,7 @@ const (
 	wrNone   = iota
 	wrBefore // somebody else commits before this attempt obtains its workspace
 	wrMid    // somebody else commits after this attempt read its files and before its TryCommit
+	wrTwin   // somebody else commits THE SAME entry (same digest, path, create time; own endorsement file) before this attempt obtains its workspace (hist.go)
 )
 
 // outcome scripts one attempt: which operation of the attempt fails (kind + n-th call of that
@@ -41,6 +42,10 @@ type outcome struct {
 	Nth    int
 	Class  int
 	Writer int
+	// Lands (hist.go; only with Kind "commit"): the commit is applied to the head and THEN the
+	// back end answers with the scripted error (the acknowledgement was lost). From the caller's
+	// side that TryCommit failed.
+	Lands bool
 }
 
 func (o outcome) String() string {
@@ -50,8 +55,13 @@ func (o outcome) String() string {
 		if o.Kind == "get" || o.Kind == "commit" || o.Kind == "change" {
 			s = fmt.Sprintf("%s!%s", o.Kind, map[int]string{clsRetriable: "R", clsPermanent: "P"}[o.Class])
 		}
+		if o.Lands {
+			s += "(landed,ack-lost)"
+		}
 	}
 	switch o.Writer {
+	case wrTwin:
+		s = "TWIN>" + s
 	case wrBefore:
 		s = "W>" + s
 	case wrMid:
@@ -180,6 +190,13 @@ type vcs struct {
 	// this back end; it blocks until the deterministic scheduler gives this submission the turn.
 	turn func()
 
+	// hist.go: the entry this submission is about to add and the full path of its endorsement file
+	// (what the twin writer commits).
+	own     *rpb.VMEndorsementMap_Entry
+	ownFile string
+	twins   int // commits of the twin writer
+	landed  int // commits that landed although TryCommit answered with an error
+
 	attempt int
 	head    map[string][]byte // replaced, never mutated, on every commit
 	rev     int
@@ -212,6 +229,16 @@ func newVCS(id int, rec *recorder, s script, outDir, snapshotDir string, initial
 		v.rev = 1
 	}
 	return v
+}
+
+// setOwn tells the back-end model which manifest entry the submission is about to add.
+func (v *vcs) setOwn(outDir, cand string, img []byte, ts time.Time) {
+	if cand == "" {
+		cand = endorse.DefaultEndorsementBasename
+	}
+	d := sha512.Sum384(img)
+	v.own = &rpb.VMEndorsementMap_Entry{Digest: d[:], Path: cand + ".binarypb", CreateTime: timeproto.To(ts)}
+	v.ownFile = path.Join(v.root, outDir, v.own.Path)
 }
 
 func (v *vcs) cur() outcome {
@@ -251,6 +278,41 @@ func (v *vcs) writerCommit() {
 	v.rec.add(event{VCS: v.id, Ev: "writer", Path: e.Path, Attempt: v.attempt})
 }
 
+// twinCommit is somebody else (a second run of the same pipeline for the same candidate, image and
+// build time) committing the very entry this submission is about to add, with an endorsement file
+// of its own: a correct read-modify-write of the manifest on the head. Entries of other candidates
+// are left alone.
+func (v *vcs) twinCommit() {
+	if v.manifest == "" || v.own == nil {
+		return
+	}
+	nh := make(map[string][]byte, len(v.head)+2)
+	for k, b := range v.head {
+		nh[k] = b
+	}
+	m := &rpb.VMEndorsementMap{}
+	if b, ok := v.head[v.manifest]; ok {
+		if err := prototext.Unmarshal(b, m); err != nil {
+			panic("c14 double: head manifest unparsable for the twin writer: " + err.Error())
+		}
+	}
+	var keep []*rpb.VMEndorsementMap_Entry
+	for _, e := range m.Entries {
+		if e.Path == v.own.Path || string(e.Digest) == string(v.own.Digest) {
+			continue
+		}
+		keep = append(keep, e)
+	}
+	m.Entries = append(keep, &rpb.VMEndorsementMap_Entry{Digest: append([]byte(nil), v.own.Digest...), Path: v.own.Path, CreateTime: v.own.CreateTime})
+	b, _ := prototext.Marshal(m)
+	nh[v.manifest] = b
+	nh[v.ownFile] = []byte(fmt.Sprintf("twin endorsement %d", v.twins))
+	v.twins++
+	v.head = nh
+	v.rev++
+	v.rec.add(event{VCS: v.id, Ev: "writer", Path: "twin:" + v.own.Path, Attempt: v.attempt})
+}
+
 // GetChangeOps implements endorse.VersionControl.
 func (v *vcs) GetChangeOps(context.Context) (endorse.ChangeOps, error) {
 	v.yield()
@@ -262,6 +324,9 @@ func (v *vcs) GetChangeOps(context.Context) (endorse.ChangeOps, error) {
 	}
 	if o.Writer == wrBefore {
 		v.writerCommit()
+	}
+	if o.Writer == wrTwin {
+		v.twinCommit()
 	}
 	if o.Kind == "get" && o.Class != clsNone {
 		err := &vcsErr{VCS: v.id, Attempt: v.attempt, Op: "GetChangeOps", Class: o.Class}
@@ -407,6 +472,23 @@ func (w *workspace) Destroy() {
 
 func (w *workspace) TryCommit(context.Context) (any, error) {
 	if err := w.fault("commit", "TryCommit"); err != nil {
+		// lost acknowledgement: the scripted failure of this attempt's TryCommit arrives after the
+		// commit was applied (only possible when the head did not move under the workspace)
+		if o := w.v.cur(); o.Lands && o.Kind == "commit" && w.v.ctl == nil && w.mine() && w.v.attempt == w.id && w.destroyed == 0 && w.count["commit"] == 1 && w.v.rev == w.baseRev {
+			nh := make(map[string][]byte, len(w.v.head)+len(w.over))
+			for k, b := range w.v.head {
+				nh[k] = b
+			}
+			for k, b := range w.over {
+				nh[k] = b
+			}
+			w.v.head = nh
+			w.v.rev++
+			w.baseRev = -1
+			w.v.landed++
+			w.ev("commit", "landed-ack-lost", err)
+			return nil, err
+		}
 		w.ev("commit", "", err)
 		return nil, err
 	}
@@ -551,6 +633,7 @@ func (v *vcs) nextSubmission(rec *recorder, s script, ownPath string, ownDigest 
 	v.rec, v.script, v.attempt = rec, s, 0
 	v.wsList, v.written, v.initial = nil, nil, nil
 	v.ctl, v.cancelAt, v.honour = nil, nil, false
+	v.own, v.ownFile, v.twins, v.landed = nil, "", 0, 0
 	if v.manifest == "" {
 		return true
 	}
